@@ -749,26 +749,34 @@ func c06StateSig(v4 bool, a, b c06Obs) string {
 		}
 		return false
 	}
-	cause := "other"
+	// the shapes predicted by the model keep the bare signature; anything else is marked unexplained
+	cause := ":unexplained"
 	switch {
 	case a.state() == "deleted" && b.state() == "deleted":
-		cause = "different-tombstone"
+		cause = ",different-revision"
+	case v4 && a.state() == "deleted" && b.state() == "live" && parent[a.Rev] == b.Rev && a.CV == b.CV:
+		// the active side tombstoned its own copy of the very revision it pulled (same revision-tree id created
+		// independently on both sides), and carries the passive side's current version on the tombstone
+		cause = ":pulled-revision-tombstoned"
 	case a.state() == "deleted" && b.state() == "live":
 		// the delete of the passive side's revision exists on the active side but is not its current revision
 		for id := range parent {
 			if deleted[id] && !isParent[id] && id != a.Rev && descends(id, b.Rev) && !descends(a.Rev, b.Rev) {
-				cause = "outranked-tombstone"
+				cause = ""
 			}
 		}
 	case a.state() == "live" && b.state() == "deleted":
 		// the active side's live revision extends one of its own tombstones
 		for x := parent[a.Rev]; x != ""; x = parent[x] {
 			if deleted[x] {
-				cause = "resurrected-local-tombstone"
+				cause = ""
 			}
 		}
 	}
-	return s + ":" + cause
+	if v4 && cause == "" {
+		cause = ":unexplained" // the revision-tree shapes are not expected under the version-vector protocol
+	}
+	return s + cause
 }
 
 func c06Proto(v4 bool) string {
@@ -849,6 +857,39 @@ func c06RunScenario(t *testing.T, rec *vRecorder, stream string, sc c06Scenario,
 					fmt.Sprintf("re-running the caught-up replication read %d and wrote %d documents (checked %d/%d)", again[0].DocsRead, again[1].DocsWritten, again[0].DocsCheckedPull, again[1].DocsCheckedPush))
 			}
 			nontrivial := hasConflictShape || hasDelete
+			if coq {
+				// db.RevDiff on both stored trees: every revision id of either side plus one nobody has
+				for i, f := range finals {
+					var ids []string
+					seen := map[string]bool{}
+					for _, o := range f {
+						for _, n := range o.Tree {
+							if !seen[n.ID] {
+								seen[n.ID] = true
+								ids = append(ids, n.ID)
+							}
+						}
+					}
+					sort.Strings(ids)
+					ids = append(ids, "7-00000000000000000000000000000bad")
+					for side, o := range f {
+						if !o.Exists {
+							continue
+						}
+						coll, ctx := e.rt(side).GetSingleTestDatabaseCollectionWithUser()
+						missing, _ := coll.RevDiff(ctx, e.docs[i], ids)
+						term := func(l []string) string {
+							items := make([]string, len(l))
+							for k, id := range l {
+								items[k] = c06Rev(id)
+							}
+							return cqList(items)
+						}
+						rec.Case(stream, "revdiff", fmt.Sprintf("CRevDiff %s %s %s", c06Tree(o.Tree), term(ids), term(missing)),
+							map[string]any{"scenario": sc.name, "doc": i, "side": side, "ids": ids, "missing": missing}, len(missing) > 1)
+					}
+				}
+			}
 			if coq {
 				tbl, okT := r.digestTable(finals)
 				if okT {
